@@ -202,12 +202,14 @@ func (r *Report) Finish() int {
 	total, discharged, nviol, nknown := 0, 0, 0, 0
 	var rules []map[string]interface{}
 	var samples []interface{}
+	var all []map[string]string
 	var vioLines []string
 	var knownLines []string
 	for _, rr := range r.Rules {
 		counts := map[Status]int{}
 		for _, in := range rr.Instances {
 			counts[in.Status]++
+			all = append(all, map[string]string{"rule": in.Rule, "construct": in.Construct, "pos": in.Pos, "status": string(in.Status), "detail": in.Detail})
 			if in.Status == Info {
 				continue
 			}
@@ -280,6 +282,7 @@ func (r *Report) Finish() int {
 		"rule":                "one evaluation = one rule instance (site, obligation, table entry) resolved semantically in /repo's current source; all are distinct constructs",
 		"rules":               rules,
 		"samples":             samples,
+		"instances":           all,
 		"checker_cmd":         fmt.Sprintf("bin/vfcheck -prop %s -tier %s -repo %s", r.Prop, r.Tier, r.Prog.RepoDir),
 		"trusted_base":        r.Trusted,
 		"packages_loaded":     len(r.Prog.Pkgs),
